@@ -126,34 +126,50 @@ def run(ctx):
                   key=f"new time_active {specs}", node=program.func(hd), rel="decorators/timing.py")
 
     ctx.rule("R07.4", "hold_off: occurrences less than N seconds after the reference time are ignored (strict), the reference time is written only on acceptance", floor=4)
-    # legacy: comparison strict and reference written after call_action accepted
-    cmp_nodes = [n for n in body_walk(tw) if isinstance(n, ast.Compare) and "time_active_hold_off" in norm(n) and "monotonic" in norm(n)]
-    ok = len(cmp_nodes) == 1 and isinstance(cmp_nodes[0].ops[0], ast.Lt) and norm(cmp_nodes[0].left) == "time.monotonic()" and "last_trig_time + self.time_active_hold_off" in norm(cmp_nodes[0].comparators[0])
-    ctx.check(ok, "R07.4", "trigger.py::TrigInfo.trigger_watch", "legacy hold_off comparison is now < last + hold_off", msg=f"legacy hold_off test is `{[short(c) for c in cmp_nodes]}`",
-              key="legacy hold_off strict", node=cmp_nodes[0] if cmp_nodes else tw, rel="trigger.py")
-    writes = [n for n in body_walk(tw) if isinstance(n, ast.Assign) and norm(n.targets[0]) == "last_trig_time" and "monotonic" in norm(n.value)]
-    ok = len(writes) == 1 and isinstance(getattr(writes[0], "_parent", None), ast.If) and "self.call_action(" in norm(writes[0]._parent.test)
-    ctx.check(ok, "R07.4", "trigger.py::TrigInfo.trigger_watch", "legacy reference time written only when call_action accepted",
-              msg="legacy trigger_watch writes last_trig_time outside the `if self.call_action(...)` acceptance test", key="legacy hold_off write", node=writes[0] if writes else tw, rel="trigger.py")
+    # legacy: the loop on scripted histories (hold_off = 10 s)
+    from .c05 import legacy_run
+    T = ("note", True, True, True)
+    for label, script, monos, want in (
+        ("an occurrence 5 s after an accepted one is ignored, one 10 s after is accepted", [T, T, T], [100.0, 105.0, 110.0], [1, 3]),
+        ("strict threshold: 9.999 s ignored, exactly 10 s accepted", [T, T, T], [100.0, 109.999, 110.0], [1, 3]),
+        ("an occurrence rejected by @state_active does not restart the interval", [T + (True,), T + (False,), T + (True,)], [100.0, 105.0, 111.0], [1, 3]),
+        ("an occurrence ignored by hold_off does not restart the interval", [T, T, T], [100.0, 106.0, 112.0], [1, 3]),
+        ("the first occurrence is never held off", [T], [5.0], [1]),
+    ):
+        got = legacy_run(program, "trigger.py::TrigInfo.trigger_watch", script, None, None, monos, hold_off=10.0)
+        runs = {tuple(ph for ph, _ in r) for _, r in got}
+        ctx.check(runs == {tuple(want)}, "R07.4", "trigger.py::TrigInfo.trigger_watch", f"legacy hold_off: {label}",
+                  msg=f"legacy trigger_watch with hold_off=10, occurrences at {monos}: runs after history items {sorted(runs)}, specified {[tuple(want)]}", key=f"legacy hold_off {label}", node=tw, rel="trigger.py")
     for last, hold, now, ignored in ((100.0, 10.0, 109.0, True), (100.0, 10.0, 110.0, False), (100.0, 10.0, 111.0, False), (0.0, 10.0, 5.0, False), (100.0, 0.0, 100.0, False), (100.0, None, 100.5, False)):
         got = _run_dispatch(program, hd, [], 0, last=last, hold=hold, mono=now)
         exp = [repr(Const(not ignored))]
         ctx.check(got == exp, "R07.4", hd, f"hold_off={hold} last={last} now={now}", msg=f"@time_active(hold_off={hold}) with last accepted at {last} and occurrence at {now}: guard returns {got}, specified {exp}",
                   key=f"new hold_off {hold}/{last}/{now}", node=program.func(hd), rel="decorators/timing.py")
-    # new subsystem: the reference time must not be written by the guard itself before the other guards decided
-    f = program.func(hd)
-    w = [n for n in body_walk(f) if isinstance(n, ast.Assign) and norm(n.targets[0]) == "self.last_trig_time"]
-    acc = program.units.get("decorators/timing.py::TimeActiveDecorator.dispatch_accepted")
-    w2 = [n for n in body_walk(acc.node) if isinstance(n, ast.Assign) and norm(n.targets[0]) == "self.last_trig_time" and "monotonic" in norm(n.value)] if acc else []
-    dsp = program.func("decorator.py::FunctionDecoratorManager.dispatch")
-    order = [("guard" if n.func.attr == "handle_dispatch" else "accepted") for n in body_walk(dsp) if isinstance(n, ast.Call) and isinstance(n.func, ast.Attribute)
-             and n.func.attr in ("handle_dispatch", "dispatch_accepted")]
-    ctx.check(bool(w2) and order == ["guard", "accepted"], "R07.4", hd, "reference time recorded by the acceptance notification, after all guards",
-              msg=f"hold_off reference time: dispatch_accepted writes it at {len(w2)} site(s); FunctionDecoratorManager.dispatch runs {order} (guards must all run before acceptance is notified)",
-              key="hold_off reference on acceptance", node=dsp, rel="decorator.py")
-    ctx.check(not w, "R07.4", hd, "reference time written on acceptance, not inside a guard",
-              msg=f"TimeActiveDecorator.handle_dispatch writes self.last_trig_time itself ({len(w)} site(s)): an occurrence that a later guard (@state_active listed below) rejects still "
-              f"restarts the hold_off interval, so the next valid occurrence is ignored", key="hold_off reference written inside guard", node=w[0] if w else f, rel="decorators/timing.py")
+    # new subsystem: dispatch through two guards; the reference time moves exactly when every guard accepted
+    dsp_uid = "decorator.py::FunctionDecoratorManager.dispatch"
+    for other_accepts in (True, False):
+        for ta_first in (True, False):
+            ta, sa = ObjV("ta", "TimeActiveDecorator"), ObjV("sa", "StateActiveDecorator")
+            guards = ListV((ta, sa) if ta_first else (sa, ta), "list")
+            class _GuardPolicy(FlowPolicy):
+                def call(self, interp, node, fname, fval, args, kwargs, cfg, out, v=other_accepts):
+                    from ..absint import FuncV
+                    if isinstance(fval, FuncV) and isinstance(fval.recv, ObjV) and fval.recv.oid == "sa":
+                        return [(cfg, Const(v) if fval.name.endswith("handle_dispatch") else Const(None))]
+                    return super().call(interp, node, fname, fval, args, kwargs, cfg, out)
+
+            pol = _GuardPolicy(program, may_raise_all=False, cancel=False, events=["Function.create_task"],
+                               inline={"TimeActiveDecorator.handle_dispatch", "TimeActiveDecorator.dispatch_accepted", "dec.handle_dispatch", "dec.dispatch_accepted"},
+                               summaries={"self.get_decorators": lambda i, n, a, k, c, o, guards=guards: [(c, guards)], "time.monotonic": lambda i, n, a, k, c, o: [(c, Const(500.0))]})
+            pol.loop_unroll = 3
+            heap = {"ta.args": ListV((), "list"), "ta.hold_off": Const(10.0), "ta.last_trig_time": Const(100.0), "self.name": Const("f"), "data.func_args": DictV(())}
+            out = run_flow(program, dsp_uid, pol, args={"self": ObjV("self", "FunctionDecoratorManager"), "data": ObjV("data", "DispatchData")}, heap=heap)
+            res = {(sum(1 for e in c.trace if e[0] == "call" and e[1] == "Function.create_task"), repr(c.heap.get("ta.last_trig_time"))) for k, c, d in exits(out)}
+            want = {(1, repr(Const(500.0)))} if other_accepts else {(0, repr(Const(100.0)))}
+            ctx.check(res == want, "R07.4", dsp_uid, f"new: other guard {'accepts' if other_accepts else 'rejects'}, @time_active listed {'first' if ta_first else 'second'}",
+                      msg=f"dispatch at t=500 through @time_active(hold_off=10, last accepted 100) and a @state_active that {'accepts' if other_accepts else 'rejects'}: (runs, reference time) = {sorted(res)}, "
+                      f"specified {sorted(want)}: a rejected occurrence must not restart the hold_off interval", key=f"new hold_off reference {other_accepts} {ta_first}",
+                      node=program.func(dsp_uid), rel="decorator.py")
 
     ctx.rule("R07.7", "the occurrence time a time trigger hands to the guards is the wall-clock instant", floor=3)
     from .c06 import trigger_time_rule
